@@ -197,6 +197,29 @@ def ob_order(maxpre):
     return h
 
 
+def mk_pre_only(tag, core):
+    """a version with the concrete core and 1-2 symbolic pre-release identifiers of 1-2 characters (digit-first alphanumeric ones included)"""
+    npre = 1 + choose(2, tag + 'npre')
+    pre = [sym_str(1 + choose(2, tag + 'ilen'), tag + 'p%d' % i, alphabet=IDA) for i in range(npre)]
+    s = core + '-' + pre[0]
+    for p in pre[1:]: s = s + '.' + p
+    return s, [1, 2, 3], pre, 3
+
+
+def ob_order_pre():
+    """the order of pre-releases of ONE release: every identifier position (not only the first) is compared as section 11.4 says"""
+    def h():
+        a = mk_pre_only('a', '1.2.3'); b = mk_pre_only('b', '1.2.3')
+        A, B = V.SemVer(a[0]), V.SemVer(b[0])
+        e = ref_semver_cmp(a, b)
+        got = (A < B, A <= B, A > B, A >= B, A == B, A != B)
+        exp = (e < 0, e <= 0, e > 0, e >= 0, e == 0, e != 0)
+        for nm, g, x in zip(('lt', 'le', 'gt', 'ge', 'eq', 'ne'), got, exp):
+            check(eq(g, x), 'SemVer %s agrees with section 11' % nm)
+        cover('pre')
+    return h
+
+
 def ob_gate(opi):
     """a pre-release version satisfies a requirement only if the requirement names a pre-release; then by the order"""
     def h():
@@ -383,6 +406,7 @@ def obligations(tier):
     out.append(Obligation('semver-order', ob_order(1 if tier == 'quick' else 2),
                           dict(components='1-3 of 0..99', prerelease_identifiers='<=%d of 1-2 chars over %s' % (1 if tier == 'quick' else 2, IDA), build='optional'),
                           labels=('pre', 'release'), classify=classify_semver, max_paths=3000000))
+    out.append(Obligation('semver-order[pre-releases of one release]', ob_order_pre(), dict(core='1.2.3', prerelease_identifiers='1-2 of 1-2 chars over ' + IDA), labels=('pre',), classify=classify_semver, max_paths=3000000))
     for opi in (3, 5, 7) if tier == 'quick' else range(len(OPS)):
         out.append(Obligation('prerelease-gate[%s]' % (OPS[opi] or 'bare'), ob_gate(opi), dict(op=OPS[opi]), labels=('gated',), classify=classify_semver, max_paths=2000000))
     for d in (1,) if tier == 'quick' else (1, 2):
